@@ -22,7 +22,7 @@ HTML_RAW = frozenset(("script", "style"))
 # '/' marks an end tag and ' ' never occurs in a Python identifier
 TAG_RE = re.compile(r"[A-Z0-9_]+\Z")
 
-CLAUSES = ("I1", "I2", "I3", "I4", "I5", "I6", "I7", "I8", "I9")
+CLAUSES = ("I1", "I2", "I3", "I4", "I5", "I6", "I7", "I8", "I9", "I11", "I12")
 MAX_CANDIDATES = 6000
 
 
@@ -675,7 +675,110 @@ def i9(e, C, seed=0, builder=None):
     return out, stats
 
 
-PER_CLASS = {"I1": i1, "I2": i2, "I3": i3, "I4": i4, "I5": i5, "I6": i6, "I7": i7, "I8": i8}
+def i11(e, C, seed=0, builder=None):
+    """a tree whose children stand in the class's own declared order is accepted by the reader, and every child comes back
+    (the complement of I4, which is about where the WRITER puts list members): only generated for classes that declare a
+    non-repeated child after a repeated one - for the others I4's witness already is in declared order"""
+    sp = e.spec[C]
+    idx = [i for i, (n, t) in enumerate(sp) if is_list(kind(e, t))]
+    if not idx:
+        return []
+    later = [sp[i][0] for i in range(idx[0] + 1, len(sp)) if kind(e, sp[i][1]) in ("element", "subaggregate")]
+    if not later:
+        return []
+    t0 = time.time()
+    b = builder or Builder(e, seed)
+    name = f"C13/I11/{C.__name__}"
+    L = [sp[i][0] for i in idx if not (kind(e, sp[i][1]) == "listaggregate"
+                                       and getattr(getattr(sp[i][1], "__type__", None), "__name__", "").lower() != sp[i][0])]
+    order = {n.upper(): i for i, (n, t) in enumerate(sp)}
+    problems, built, py = [], 0, ""
+    for a in later:
+        ia = [i for i, (n, t) in enumerate(sp) if n == a][0]
+        before = [l for l in L if order[l.upper()] < ia][-1:]
+        after = [l for l in L if order[l.upper()] > ia][:1]
+        members = tuple(before + after)
+        if not members:
+            continue
+        try:
+            x = b.witness(C, (a,), members)
+        except Exception:
+            continue            # reachability of the child itself is clause I9
+        built += 1
+        try:
+            with warnings.catch_warnings():
+                warnings.simplefilter("ignore")
+                root = x.to_etree()
+                kids = list(root)
+                if any(k.tag not in order for k in kids):
+                    continue        # a class whose ungroom() renames children: declared order is not the wire order
+                for k in kids:
+                    root.remove(k)
+                for k in sorted(kids, key=lambda k: order[k.tag]):      # stable: members of one list keep their order
+                    root.append(k)
+                tags = [k.tag for k in root]
+                text = ET.tostring(root, method="html").decode()
+                tb = e.TreeBuilder(); tb.feed(text)
+                y = e.Aggregate.from_etree(tb.close())
+            good = type(y) is type(x) and _member_profile(e, y) == _member_profile(e, x) and getattr(y, a) is not None
+            if not good:
+                problems.append(f"children in declared order {tags} do not all come back")
+        except Exception as ex:
+            good = False
+            problems.append(f"a {C.__name__} whose children stand in declared order {tags} is refused: {type(ex).__name__}: {str(ex)[:200]}")
+        if not good and not py:
+            used = set()
+            exs = expr(e, x, used)
+            imports = "".join(f"from {c.__module__} import {c.__name__}\n" for c in sorted(used, key=lambda c: c.__name__))
+            py = (PRE + "import datetime\nimport xml.etree.ElementTree as ET\nfrom decimal import Decimal\n"
+                  "from ofxtools.utils import UTC\nfrom ofxtools.Parser import TreeBuilder\nfrom ofxtools.models.base import Aggregate\n"
+                  f"# {name}: children put in the order the class declares them must be readable\n"
+                  "try:\n" + "".join("    " + l + "\n" for l in imports.splitlines()) +
+                  f"    x = {exs}\n    root = x.to_etree(); kids = list(root)\n"
+                  "    order = {n.upper(): i for i, n in enumerate(type(x).spec)}\n"
+                  "    for k in kids: root.remove(k)\n"
+                  "    for k in sorted(kids, key=lambda k: order[k.tag]): root.append(k)\n"
+                  "    b = TreeBuilder(); b.feed(ET.tostring(root, method='html').decode())\n"
+                  "    y = Aggregate.from_etree(b.close())\n"
+                  f"    ok = type(y) is type(x) and len(y) == len(x) and getattr(y, {a!r}) is not None\n"
+                  "except Exception as ex:\n    print(type(ex).__name__, ex); ok = False\n"
+                  "sys.exit(0 if ok else 17)\n")
+    if not built:
+        return []
+    ok = not problems
+    return [R(name, "I11", C, ok, "; ".join(problems), py or snippet_native("I11", C, name, seed), t0=t0)]
+
+
+def i12(e, C, seed=0):
+    """a slot admits only instances that are written under the slot's own tag: SubAggregate.convert admits by isinstance,
+    to_etree writes type(value).__name__ - so no other class of the space may be a strict subclass of a declared child type"""
+    out = []
+    for n, t in e.spec[C]:
+        if kind(e, t) != "subaggregate":
+            continue
+        ty = getattr(t, "__type__", None)
+        if not (inspect.isclass(ty) and issubclass(ty, e.Aggregate)):
+            continue
+        t0 = time.time()
+        name = f"C13/I12/{C.__name__}/{n}"
+        subs = sorted(s.__name__ for s in e.classes if s is not ty and issubclass(s, ty) and s.__name__ != ty.__name__)
+        ok = not subs
+        det = "" if ok else (f"{C.__name__}.{n} is declared as SubAggregate({ty.__name__}) and admits by isinstance: an instance of its subclass "
+                             f"{subs[0]} is accepted in this slot but written under <{subs[0]}>, not <{ty.__name__}>, and is not read back into '{n}'"
+                             + (f" (also: {subs[1:6]})" if len(subs) > 1 else ""))
+        py = (PRE + "from ofxtools import Types\nimport ofxtools.models as M, inspect\nfrom ofxtools.models.base import Aggregate\n"
+              "try:\n"
+              f"    C = getattr(importlib.import_module({C.__module__!r}), {C.__name__!r}, None)\n"
+              "except ImportError:\n    C = None\n"
+              f"t = None if C is None else C.spec.get({n!r})\n"
+              "ty = getattr(t, '__type__', None)\n"
+              "bad = [v.__name__ for v in vars(M).values() if inspect.isclass(v) and inspect.isclass(ty) and v is not ty and issubclass(v, ty)]\n"
+              "print(bad)\nsys.exit(17 if bad else 0)\n")
+        out.append(R(name, "I12", C, ok, det, py, attr=n, t0=t0))
+    return out
+
+
+PER_CLASS = {"I12": i12, "I1": i1, "I2": i2, "I3": i3, "I4": i4, "I5": i5, "I6": i6, "I7": i7, "I8": i8}
 
 
 def check_class(e, C, seed, builder=None):
@@ -685,8 +788,9 @@ def check_class(e, C, seed, builder=None):
     for cl in ("I1", "I2", "I3"):
         res += PER_CLASS[cl](e, C, seed)
     res += i4(e, C, seed, b)
-    for cl in ("I5", "I6", "I7", "I8"):
+    for cl in ("I5", "I6", "I7", "I8", "I12"):
         res += PER_CLASS[cl](e, C, seed)
+    res += i11(e, C, seed, b)
     r9, stats = i9(e, C, seed, b)
     res += r9
     return res, stats
@@ -723,6 +827,8 @@ def native(clause, module, clsname, name, seed=0):
         res, _ = i9(e, C, seed)
     elif clause == "I4":
         res = i4(e, C, seed)
+    elif clause == "I11":
+        res = i11(e, C, seed)
     else:
         res = PER_CLASS[clause](e, C, seed)
     for r in res:
